@@ -532,6 +532,10 @@ func ParseDecimal64(v string) (*sdcpb.Decimal64, error) {
 		fracPart = parts[1]
 	}
 
+	// trailing zeros of the fraction carry no information. Dropping them yields one representation
+	// per value ("1.50" and "1.5" are the same decimal64), values are compared via their representation.
+	fracPart = strings.TrimRight(fracPart, "0")
+
 	// Combine integer and fractional parts into one number.
 	combined := intPart + fracPart
 
